@@ -59,6 +59,28 @@ def r1(ctx):
         for a in m["arms"]:
             vp, _ = e4.arm_variant(a)
             arms[vp.split("::")[-1]] = _arm_summary(c, a["body"], tgt)
+            # how often the primitive runs: Add/Subtract/Multiply once per listed source (inside the walk over the sources),
+            # Mean once for ALL sources together (a pairwise running mean is a different value for three or more tensors)
+            vname = vp.split("::")[-1]
+            if vname in ("Add", "Subtract", "Multiply", "Mean"):
+                prim_calls = [x for x in walk(a["body"]) if x.get("k") == "mcall" and x["callee"] in INPLACE]
+                src_loops = [x for x in walk(a["body"]) if x.get("k") == "for" or (x.get("k") == "mcall" and x["name"] == "for_each")]
+                in_loop = [any(y is x for lp_ in src_loops for y in walk(lp_)) for x in prim_calls]
+                if vname == "Mean":
+                    okn = bool(prim_calls) and not any(in_loop)
+                    if okn:
+                        # its operand list is filled by the walk over the sources
+                        arg = strip(prim_calls[0]["args"][0])
+                        ah = e4.local_hid(arg)
+                        pushes = [y for lp_ in src_loops for y in walk(lp_) if y.get("k") == "mcall" and y["name"] == "push" and e4.local_hid(y["recv"]) == ah]
+                        collects = ah is None and any(y.get("k") == "mcall" and y["name"] in ("map", "collect") for y in walk(arg))
+                        okn = (ah is not None and len(pushes) == 1) or collects
+                    ctx.check("R11.1", "%s:Mean:joint-mean" % inst, okn, "mean-not-taken-jointly-over-all-sources", c.loc(fn, a["body"]),
+                              "one mean_inplace over the list of all sources",
+                              "the Mean arm is `%s`: the mean must be taken once over the target and all listed sources; folding pairwise weights later sources more" % short(pretty(a["body"]), 200))
+                else:
+                    ctx.check("R11.1", "%s:%s:per-source" % (inst, vname), bool(prim_calls) and all(in_loop), "primitive-not-applied-per-source", c.loc(fn, a["body"]),
+                              "the primitive is applied once per listed source")
             # receivers of the primitives must be the combination target
             for x in walk(a["body"]):
                 if x.get("k") == "mcall" and x["callee"] in INPLACE:
